@@ -1100,7 +1100,7 @@ fn hist_main(args: &[String]) {
         if got != base {
             mismatches += 1;
             if mismatches <= 5 {
-                println!("HISTDIFF request#{} {} got={} baseline={}", i, what, &got[..got.len().min(120)], &base[..base.len().min(120)]);
+                println!("HISTDIFF request#{} {} got={} baseline={}", if i == usize::MAX { -1 } else { i as i64 }, what, &got[..got.len().min(120)], &base[..base.len().min(120)]);
             }
         }
     };
@@ -1173,6 +1173,105 @@ fn hist_main(args: &[String]) {
         executions += ex;
         for (i, got) in bad {
             report(i, "concurrent", &got, &base_arc[i]);
+        }
+    }
+    // a long sweep in one thread while other threads start small operations (process-wide state that a small
+    // call resets would cut the long sweep short)
+    {
+        let big = MultiPolygon(vec![stack::comb(3000, 0.0)]);
+        let strip = MultiPolygon(vec![Polygon::new(
+            LineString(vec![
+                Coord { x: 0.5, y: -1.0 },
+                Coord { x: 9.5, y: -1.0 },
+                Coord { x: 9.5, y: 3001.0 },
+                Coord { x: 0.5, y: 3001.0 },
+                Coord { x: 0.5, y: -1.0 },
+            ]),
+            vec![],
+        )]);
+        let want_i = big.intersection(&strip);
+        let want_u = big.union(&strip);
+        let stop = std::sync::Arc::new(std::sync::atomic::AtomicBool::new(false));
+        let mut small_handles = Vec::new();
+        for t in 0..threads.min(4) {
+            let reqs = reqs_arc.clone();
+            let stop = stop.clone();
+            small_handles.push(std::thread::spawn(move || {
+                install_hook();
+                let empty: HashMap<usize, String> = HashMap::new();
+                let mut i = t;
+                let mut ex = 0u64;
+                while !stop.load(std::sync::atomic::Ordering::Relaxed) && !reqs.is_empty() {
+                    let _ = dispatch(&reqs[i % reqs.len()], &empty);
+                    i += 7;
+                    ex += 1;
+                    std::thread::sleep(std::time::Duration::from_millis(2));
+                }
+                ex
+            }));
+        }
+        for round in 0..3 {
+            let got_i = guarded(|| big.intersection(&strip));
+            let got_u = guarded(|| big.union(&strip));
+            executions += 2;
+            if got_i.as_ref().ok() != Some(&want_i) {
+                report(usize::MAX, "long-sweep-intersection-while-small-calls-run", &format!("round{}:differs-from-the-sequential-result", round), "sequential");
+            }
+            if got_u.as_ref().ok() != Some(&want_u) {
+                report(usize::MAX, "long-sweep-union-while-small-calls-run", &format!("round{}:differs-from-the-sequential-result", round), "sequential");
+            }
+        }
+        stop.store(true, std::sync::atomic::Ordering::Relaxed);
+        for h in small_handles {
+            executions += h.join().unwrap();
+        }
+    }
+    // an operand edited in place between two calls (state keyed by the address of an operand's buffers
+    // would survive the edit); the reference is a copy in a fresh allocation made while the original is alive
+    for k in [2usize, 4, 8, 16, 32] {
+        let mut pts = Vec::new();
+        let step = 4.0 / k as f64;
+        for j in 0..k {
+            pts.push(Coord { x: j as f64 * step, y: 0.0 });
+        }
+        for j in 0..k {
+            pts.push(Coord { x: 4.0, y: j as f64 * step });
+        }
+        for j in 0..k {
+            pts.push(Coord { x: 4.0 - j as f64 * step, y: 4.0 });
+        }
+        for j in 0..k {
+            pts.push(Coord { x: 0.0, y: 4.0 - j as f64 * step });
+        }
+        pts.push(Coord { x: 0.0, y: 0.0 });
+        let mut p = Polygon::new(LineString(pts), vec![]);
+        let clip = Polygon::new(
+            LineString(vec![
+                Coord { x: 6.0, y: 0.0 },
+                Coord { x: 10.0, y: 0.0 },
+                Coord { x: 10.0, y: 4.0 },
+                Coord { x: 6.0, y: 4.0 },
+                Coord { x: 6.0, y: 0.0 },
+            ]),
+            vec![],
+        );
+        for stage in 0..2 {
+            if stage == 1 {
+                // drag the vertex (4, 2) to (8, 2) through the operand's own buffer
+                p.exterior_mut(|ls| ls.0[k + k / 2].x = 8.0);
+            }
+            let fresh = Polygon::new(LineString(p.exterior().0.clone()), vec![]);
+            let same = guarded(|| {
+                p.intersection(&clip) == fresh.intersection(&clip)
+                    && p.union(&clip) == fresh.union(&clip)
+                    && p.difference(&clip) == fresh.difference(&clip)
+                    && p.xor(&clip) == fresh.xor(&clip)
+                    && clip.difference(&p) == clip.difference(&fresh)
+            });
+            executions += 10;
+            if same != Ok(true) {
+                report(usize::MAX, "operand-edited-in-place", &format!("ring-of-{}-coordinates:stage{}:differs-from-an-equal-operand-in-a-fresh-allocation", 4 * k + 1, stage), "fresh-allocation");
+            }
         }
     }
     println!(
